@@ -496,7 +496,7 @@ def m_str_index(it, callee, s, rng):
         if isinstance(f[0], int) and isinstance(f[1], int) and f[0] > f[1]: raise Panic('slice index starts after end')
         a, b = byte_offset_to_index(it, sv, f[0]), byte_offset_to_index(it, sv, f[1])
     return Ref(Box_(SStr(sv.chars[a:b])))
-reg(r'<std::string::String as std::ops::Index<(.*)>>::index', lambda it, s, rng: m_str_index(it, 'Range' if len(rng.fields) == 2 else ('RangeFull' if not rng.fields else 'RangeFrom'), s, rng))
+REG.append((re.compile(r'<std::string::String as std::ops::Index(?:Mut)?<(.*)>>::index(?:_mut)?'), m_str_index, True))
 @model(r'core::str::<impl str>::get::<.*>', True)
 def m_str_get(it, callee, s, rng):
     try: return SOME(m_str_index(it, callee, s, rng))
